@@ -171,6 +171,43 @@ def client_encodes_every_argument(ctx, rule):
     return n
 
 
+def client_kind_matches_declaration(ctx, rule):
+    """a declaration with `param_kind = map` is encoded by name (ObjectParams::insert under the declared key, renames
+    included), any other positionally (ArrayParams::insert) - for methods and for subscriptions alike. Corpus only (the
+    declared kind comes from the corpus spec)."""
+    F, R = ctx.F, ctx.R
+    if ctx.config != "corpus":
+        return 0
+    from .. import extract
+    sp = os.path.join(extract.CACHE, "corpus", "spec.json")
+    if not os.path.exists(sp):
+        raise AnchorLost("corpus spec.json at %s" % sp)
+    spec = {t["name"]: t for t in json.load(open(sp))}
+    tr = ctx.tracer(follow_callers=False, follow_fields=False)
+    n = 0
+    for (crate, tname), t in sorted(collect(F, tr).items()):
+        sp_t = spec.get(tname)
+        if sp_t is None:
+            continue
+        for rust, ci in sorted(t["client"].items()):
+            d = next((m for m in sp_t["methods"] + sp_t["subs"] if m["rust"] == rust), None)
+            if d is None or not d["params"]:
+                continue
+            n += 1
+            want_map = sp_t["kind"] == "map"
+            for j, ins in enumerate(ci["inserts"]):
+                got_map = ins["key"] is not None
+                key = "%s::%s::%s:declared-param-kind#%d" % (crate, tname, rust, j)
+                if got_map != want_map:
+                    R.bad(rule, key, "%s::%s is declared with param_kind = %s but its client stub encodes parameter %d %s: the call no longer carries %s" % (tname, rust, sp_t["kind"], j, "by name" if got_map else "positionally", "the declared key/value pairs (the renamed keys are lost)" if want_map else "the positional values"), where(ins["site"]))
+                elif want_map and j < len(d["params"]):
+                    want_key = d["params"][j].get("rename") or d["params"][j]["name"]
+                    R.check(ins["key"] == {want_key}, rule, key, "parameter %d travels under its declared key `%s`" % (j, want_key), "parameter %d of %s::%s is declared with key `%s` but the client sends %s" % (j, tname, rust, want_key, sorted(ins["key"])), where(ins["site"]))
+                else:
+                    R.ok(rule, key, "parameter %d is encoded positionally as declared" % j, where(ins["site"]))
+    return n
+
+
 def decode_errors_propagate(ctx, rule):
     """in every generated server closure a failed read of a parameter (ParamsSequence::next / optional_next, Params::parse
     for by-name) ends the call with the error: the Result is matched (its Err arm leaves the closure / rejects the
@@ -406,6 +443,9 @@ def w_rules(ctx):
             R.check(got_al == want_al, "C17.W5", "%s::%s:declared-aliases" % (crate, tname), "aliases registered = aliases declared (%d)" % len(want_al), "declared aliases %s, registered %s" % (sorted(want_al - got_al), sorted(got_al - want_al)), "%s:%d" % (t["into_rpc"].file, t["into_rpc"].lo))
             want_decl = {m["rust"] for m in sp_t["methods"] + sp_t["subs"]}
             R.check(set(decls) == want_decl, "C17.W1", "%s::%s:all-declarations-present" % (crate, tname), "all %d declarations of %s were analysed" % (len(want_decl), tname), "declarations %s of %s are missing from the facts" % (sorted(want_decl - set(decls)), tname), None)
+    nk = client_kind_matches_declaration(ctx, "C17.W4")
+    if ctx.config == "corpus":
+        R.floor("C17.W4.kind", nk, 30, "corpus declarations with parameters whose encoding kind was compared with the declaration")
     nd = decode_errors_propagate(ctx, "C17.W7")
     R.extra["C17.decode_sites." + ctx.config] = nd
     if ctx.config == "corpus":
